@@ -23,6 +23,47 @@ type TDB struct {
 	Reads, Writes uint64
 	// ReadLimit > 0: a state read beyond this count panics with WorkSentinel (turns unbounded loops into a verdict)
 	ReadLimit uint64
+	// dirtyLog: addresses made dirty through the interface in call order (a zero AddBalance only when the account is
+	// empty at that moment, as in the StateDB), cut back by RevertToSnapshot: the accounts whose dirtiness survives
+	// are the ones the end-of-transaction finalisation looks at
+	dirtyLog  []common.Address
+	snapMarks map[int]int
+}
+
+// Snapshot / RevertToSnapshot keep the dirty log in step with the StateDB's journal.
+func (t *TDB) Snapshot() int {
+	id := t.StateDB.Snapshot()
+	if t.snapMarks == nil {
+		t.snapMarks = map[int]int{}
+	}
+	t.snapMarks[id] = len(t.dirtyLog)
+	return id
+}
+
+func (t *TDB) RevertToSnapshot(id int) {
+	if n, ok := t.snapMarks[id]; ok && n <= len(t.dirtyLog) {
+		t.dirtyLog = t.dirtyLog[:n]
+	}
+	t.StateDB.RevertToSnapshot(id)
+}
+
+func (t *TDB) dirty(a common.Address) { t.dirtyLog = append(t.dirtyLog, a) }
+
+// ExistsFinalised tells whether a would still be an account after Finalise(deleteEmpty=true): it exists, did not
+// self-destruct, and is not an empty account whose dirtiness survived.
+func (t *TDB) ExistsFinalised(a common.Address) bool {
+	if !t.StateDB.Exist(a) || t.StateDB.HasSuicided(a) {
+		return false
+	}
+	if !t.StateDB.Empty(a) {
+		return true
+	}
+	for _, d := range t.dirtyLog {
+		if d == a {
+			return false
+		}
+	}
+	return true
 }
 
 // WorkSentinel is the panic value raised by the counting StateDB when an execution exceeds its access budget.
@@ -63,21 +104,33 @@ func (t *TDB) ResetTouched() {
 	t.addrs = map[common.Address]string{}
 	t.slots = map[common.Address]map[common.Hash]common.Hash{}
 	t.Reads, t.Writes = 0, 0
+	t.dirtyLog, t.snapMarks = nil, nil
 }
 
-func (t *TDB) CreateAccount(a common.Address) { t.touch(a); t.Writes++; t.StateDB.CreateAccount(a) }
+func (t *TDB) CreateAccount(a common.Address) {
+	t.touch(a)
+	t.dirty(a)
+	t.Writes++
+	t.StateDB.CreateAccount(a)
+}
 func (t *TDB) SubBalance(a common.Address, v *big.Int) {
 	t.touch(a)
+	if v.Sign() != 0 {
+		t.dirty(a)
+	}
 	t.Writes++
 	t.StateDB.SubBalance(a, v)
 }
 func (t *TDB) AddBalance(a common.Address, v *big.Int) {
 	t.touch(a)
+	if v.Sign() != 0 || t.StateDB.Empty(a) {
+		t.dirty(a)
+	}
 	t.Writes++
 	t.StateDB.AddBalance(a, v)
 }
-func (t *TDB) SetNonce(a common.Address, n uint64) { t.touch(a); t.Writes++; t.StateDB.SetNonce(a, n) }
-func (t *TDB) SetCode(a common.Address, c []byte)  { t.touch(a); t.Writes++; t.StateDB.SetCode(a, c) }
+func (t *TDB) SetNonce(a common.Address, n uint64) { t.touch(a); t.dirty(a); t.Writes++; t.StateDB.SetNonce(a, n) }
+func (t *TDB) SetCode(a common.Address, c []byte)  { t.touch(a); t.dirty(a); t.Writes++; t.StateDB.SetCode(a, c) }
 func (t *TDB) SetState(a common.Address, k, v common.Hash) {
 	t.touch(a)
 	t.Writes++
